@@ -171,6 +171,8 @@ func (a *sessionAwareAdapter) Broadcast(header *parser.PacketHeader, v []any, op
 	isEventPacket := header.Type == parser.PacketTypeEvent
 	withoutAcknowledgement := header.ID == nil
 	if isEventPacket && withoutAcknowledgement {
+		// The options are kept with the packet, and `RestoreSession` calls methods of the sets.
+		opts = normalizeBroadcastOptions(opts)
 		a.mu.Lock()
 		id := a.yeaster.Yeast()
 		v = append(v, id)
